@@ -96,7 +96,7 @@ def cases_of(job, res, ref, srcs):
         if name is None or not ref.get(name, {}).get("ok"):
             continue
         out.append({"name": name, "rows": [G.machine_row(r) for r in rows], "temps": G.temps_of(rows),
-                    "expected": ref[name]["expected"], "source": srcs[name]})
+                    "expected": ref[name]["expected"], "source": srcs[name], "start": ""})
     return out
 
 
@@ -154,7 +154,7 @@ def run(tier, seed):
         v.machinery_failure("%d cases without a verdict, e.g. %s" % (len(missing), missing[:3]))
     n_bad = 0
     for vd in tot["verdicts"]:
-        if vd["clause"] == "":
+        if vd["clause"] in ("", "skipped_overflow"):
             continue
         n_bad += 1
         c = by_name[vd["case"]]
